@@ -102,6 +102,11 @@ func checkRender(t run.TB, c RenderCase) (judged bool) {
 	if p != nil {
 		run.Fail(t, chkRender, c, "rendering panicked: %v", p)
 	}
+	if string(b) != c.Content {
+		// the file content is the caller's (and the library's only copy of the text): showing an
+		// error must not write into it
+		run.Fail(t, chkRender, c, "rendering the error changed the content of the file: %q -> %q", c.Content, b)
+	}
 	w := ref.Render(b, c.Pos)
 	if w.Mixed {
 		run.Excluded("unspecified:mixed-newline-conventions")
